@@ -30,7 +30,8 @@ RULE = ("the whole configuration lattice is enumerated: {TripleStream,QuadStream
         "1, 3, 5 statements with fresh terms and 4, 6 statements re-using terms (single-row statements). Oracle for every configuration that returns without raising: every stream the entry point "
         "created or was given has an empty flow, and the bytes decode (pyjelly parser and reference decoder) to the input "
         "(documented quads->TRIPLES projection applied). Raising is always acceptable. Non-trivial = distinct accepted "
-        "configurations.")
+        "configurations. The special cases, the tiny-table sub-lattice and every 11th lattice point run once more in a child interpreter "
+        "started with python -O (assert statements compiled away).")
 ASSUMPTIONS = [
     "a quad input written through a TRIPLES stream (GRAPHS-family logical type) is expected to arrive as its s/p/o projection - the documented behaviour; losing a statement is the violation",
     "rdflib inputs are compared as sets",
@@ -494,6 +495,10 @@ def run_arity_mismatch(c: dict):
 
 def run_shard(ctx):
     monitors.stream_registry_on()
+    if ctx.shard == 3 % ctx.nshards:
+        # a slice of everything again in an interpreter started with -O: "must raise instead of writing" may not hinge on an assert
+        from .. import childopt
+        childopt.run(ctx, ID, 1)
     if ctx.shard == 2 % ctx.nshards:
         for c in arity_mismatch_cases():
             w, outcome = run_arity_mismatch(c)
@@ -546,6 +551,30 @@ def run_shard(ctx):
         ctx.case(key, True, sample={"cfg": c, "streams": res.get("streams"), "bytes": len(res["bytes"])})
     ctx.extra["enumeration_complete"] = done_all
     ctx.observe("registry-evaluations", monitors.EVALS["Stream.__init__"])
+
+
+def child_case(ctx, rng, k):
+    """python -O slice: the special cases, the whole tiny-table sub-lattice and every 11th point of the main lattice."""
+    monitors.stream_registry_on()
+    for cases, runner in ((arity_mismatch_cases(), run_arity_mismatch), (short_write_cases(), run_short_write), (nested_cases(), run_nested)):
+        for c in cases:
+            w, outcome = runner(c)
+            ctx.observe("configurations-accepted" if outcome == "returned" else "configurations-raised")
+            if w is not None:
+                ctx.violation(w)
+            ctx.case(None, True)
+    for idx, c in enumerate(enumerate_configs("quick")):
+        if idx % 11 and not c.get("preset"):
+            continue
+        res = run_config(c)
+        if res["outcome"] == "raised":
+            ctx.observe("configurations-raised")
+            continue
+        ctx.observe("configurations-accepted")
+        w = judge(c, res)
+        if w is not None:
+            ctx.violation(w)
+        ctx.case(None, True)
 
 
 def EXHAUSTIVE(merged, tier):
